@@ -26,7 +26,7 @@ Specials == {"dot-import-bind", "dot-import-build", "alias-import", "multi-assig
              "build-twice", "build-not-first", "generic-injector", "set-var-no-value", "set-var-composite", "struct-no-fields",
              "fieldsof-no-names", "fieldsof-too-many", "newset-of-newset", "build-of-build", "struct-of-pointer-pointer",
              "fieldsof-ptr-ptr-ptr", "bind-ptr-ptr", "build-in-panic", "build-in-return", "injector-no-result", "injector-four-results",
-             "other-func-panics-method-call", "other-func-panics-call-of-call", "other-func-panics-index-call", "other-func-no-body"}
+             "other-func-panics-method-call", "other-func-panics-call-of-call", "other-func-panics-index-call"}
 
 FrontProg(pos, form) ==
   [Prog("F/" \o pos \o "/" \o form, "F", <<>>, <<>>, <<>>, <<>>) EXCEPT !.fam = "F"] @@ [front |-> [pos |-> pos, form |-> form]]
